@@ -295,6 +295,8 @@ func checkC18(c *Ctx) {
 	r.Rule("R18c", "template variables and declared path parameters coincide; parameter locations are constant; path parameters are unconditionally required", 20)
 	r.Rule("R18j", "the visited set of the schema collector is keyed injectively (full name or descriptor pointer): two messages with the same short name are both collected, so no reference dangles (shared with C16/R16d)", 1)
 	visitedKeysInjective(c, "R18j", func(fn *types.Func) bool { return strings.HasSuffix(fn.Pkg().Path(), pkgOpenAPI) })
+	r.Rule("R18k", "no package-level variable of the OpenAPI generator holds a document model value: every service's document is built from values of its own", 1)
+	c18NoSharedDocumentState(c, "R18k")
 	r.Rule("R18i", "every key of the paths object begins with a slash, whatever slashes the base path and the method path carry", 10)
 	c18PathKeys(c, "R18i")
 	r.Rule("R18d", "one document per service; operation ids are RPC names", 3)
@@ -1499,4 +1501,79 @@ func concatParts(info *types.Info, e ast.Expr) []concatPart {
 		return nil
 	}
 	return out
+}
+
+// c18NoSharedDocumentState — R18k. One generator (and one document) is built per service. A package-level variable of the
+// OpenAPI generator or its plugin main whose type is, points to, or contains a libopenapi model value (v3.Document, Paths,
+// Info, Schema, an ordered map …) is document state that outlives a service: a shallow copy of it (`doc := skeleton`) shares
+// its pointers, so the operations of one service show up in the documents of all later ones.
+func c18NoSharedDocumentState(c *Ctx, rid string) {
+	r := c.R
+	n := 0
+	var holds func(t types.Type, depth int) string
+	holds = func(t types.Type, depth int) string {
+		if depth > 3 {
+			return ""
+		}
+		switch u := t.(type) {
+		case *types.Pointer:
+			return holds(u.Elem(), depth+1)
+		case *types.Slice:
+			return holds(u.Elem(), depth+1)
+		case *types.Array:
+			return holds(u.Elem(), depth+1)
+		case *types.Map:
+			if s := holds(u.Key(), depth+1); s != "" {
+				return s
+			}
+			return holds(u.Elem(), depth+1)
+		case *types.Alias:
+			return holds(types.Unalias(u), depth)
+		case *types.Named:
+			if o := u.Obj(); o != nil && o.Pkg() != nil && (strings.HasPrefix(o.Pkg().Path(), "github.com/pb33f/libopenapi") || strings.HasPrefix(o.Pkg().Path(), "go.yaml.in/yaml")) {
+				if _, isStruct := u.Underlying().(*types.Struct); isStruct {
+					return o.Pkg().Name() + "." + o.Name()
+				}
+			}
+			if st, ok := u.Underlying().(*types.Struct); ok && u.Obj().Pkg() != nil && strings.Contains(u.Obj().Pkg().Path(), modPath) {
+				for i := 0; i < st.NumFields(); i++ {
+					if s := holds(st.Field(i).Type(), depth+1); s != "" {
+						return s
+					}
+				}
+			}
+		}
+		return ""
+	}
+	for _, rel := range []string{pkgOpenAPI, cmdOpenAPI} {
+		pk := c.P.Pkg(rel)
+		if pk == nil {
+			r.Unres(rid, rel, "", "package not loaded")
+			continue
+		}
+		for _, f := range pk.Syntax {
+			if strings.HasSuffix(c.P.Pos(f.Pos()), "_test.go") || strings.Contains(c.P.Pos(f.Pos()), "_test.go:") {
+				continue
+			}
+			for _, d := range f.Decls {
+				gd, ok := d.(*ast.GenDecl)
+				if !ok || gd.Tok != token.VAR {
+					continue
+				}
+				for _, sp := range gd.Specs {
+					for _, nm := range sp.(*ast.ValueSpec).Names {
+						o := pk.TypesInfo.Defs[nm]
+						if o == nil || nm.Name == "_" {
+							continue
+						}
+						n++
+						what := holds(o.Type(), 0)
+						r.Check(what == "", rid, fmt.Sprintf("%s: package-level variable %s holds no document model value", pkgShort(rel), nm.Name), c.P.Pos(nm.Pos()),
+							fmt.Sprintf("%s keeps a %s in the package-level variable %s: the plugin builds one generator per service in one process, and whatever is reached through that variable (paths, info, schemas) is shared by all their documents — the second service's document also contains the first one's operations", pkgShort(rel), what, nm.Name))
+					}
+				}
+			}
+		}
+	}
+	r.OKd(rid, "package-level variables of the OpenAPI generator and its main inspected", "", map[string]any{"variables": n})
 }
